@@ -154,6 +154,18 @@ def check(run, vm):
                          'aggregate initialisation no longer matches the field order of struct regbank)' % (f, got[f], w))
         else:
             run.held('DRIVERS', inst, crun.where(), '%s = %s' % (f, got[f]))
+    # registers that alias the machine's own state: a copy would keep the handlers' writes (DIE / slotat set `status`) in the register bank
+    rb_rec = [r_ for k_, r_ in run.facts('Q0').raw['records'].items() if k_.split('::')[-1] == 'regbank']
+    if len(rb_rec) != 1:
+        raise AnalysisBroken('struct regbank not found')
+    ftypes = {f_['n']: (f_.get('t') or '') for f_ in rb_rec[0]['fields']}
+    for f, why in (('status', 'the status the handlers set (died_early, slot_offset_out_bounds) must reach Machine::_status, as it does through the reference parameter of direct_run'),
+                   ('smap', 'the slot map is the machine\'s own'), ('ip', 'the handlers advance the caller\'s instruction pointer')):
+        inst = 'call regbank.%s is a reference' % f
+        if ftypes.get(f, '').rstrip().endswith('&'):
+            run.held('DRIVERS', inst, crun.where(), ftypes[f])
+        else:
+            run.violated('DRIVERS', inst, crun.where(), 'register `%s` of the call-threaded interpreter is declared `%s`, a copy: %s -- the two interpreter builds disagree' % (f, ftypes.get(f), why))
     for nm, g, w in (('sp', sp_init, '(this->_stack + graphite2::vm::Machine::STACK_GUARD)'), ('sb', sb_init, 'sp'), ('dp', dp_init, 'data'), ('ip', ip_init, '(program - 1)')):
         inst = 'call %s init' % nm
         if g is not None and g.replace(' ', '') == w.replace(' ', ''):
